@@ -92,26 +92,46 @@ def run(ctx):
                        "configurations, plus TLC-simulated 15-18 call sequences over 6 names; each is one run of the real "
                        "code whose log must be accepted by TraceNamesys. non-trivial = run with >= 2 successful publishes "
                        "and a resolve that followed a link or hit the cache")
-    # ---------------------------------------------------------------- M
-    ctx.tlc_mc(SPEC, "Namesys.tla", "MCNamesysQuick.cfg" if q else "MCNamesys.cfg", timeout=2400, coverage=not q)
-    if q:
-        ctx.tlc_mc(SPEC, "Namesys.tla", "MCNamesys2.cfg", timeout=1200, simulate=60, depth=60)
-    else:
-        ctx.tlc_mc(SPEC, "Namesys.tla", "MCNamesys2.cfg", timeout=2400, simulate=20000, depth=80)
-    # the defect is a property of the model with the deviation switched on (sanity: ReadYourPublish has teeth)
-    r = ctx.tlc_mc(SPEC, "Namesys.tla", "MCNamesysDev.cfg", timeout=1200, expect_violation="any")
-    if r["violated"] not in ("ReadYourPublish", "ChainResult", "CacheCoherent"):
-        ctx.broken("as-built model (Dev_C29_PublishCacheKey) does not violate ReadYourPublish/ChainResult: %s" % r["violated"])
-    # ---------------------------------------------------------------- G (inputs)
-    fams = []
-    d4 = ctx.tlc_gen(SPEC, "GenNamesys.tla", "GenNamesysD3.cfg" if q else "GenNamesysD4.cfg", timeout=2400, workers=8)
-    pub = ctx.tlc_gen(SPEC, "GenNamesys.tla", "GenNamesysPubQ.cfg" if q else "GenNamesysPub.cfg", timeout=2400, workers=8)
-    chn = ctx.tlc_gen(SPEC, "GenNamesys.tla", "GenNamesysChainQ.cfg" if q else "GenNamesysChain.cfg", timeout=2400, workers=8)
-    if q:   # length-2 families: seeded samples (length 3, complete, in the thorough tier)
-        pub = ctx.rng.sample(pub, min(len(pub), 800))
-        chn = ctx.rng.sample(chn, min(len(chn), 800))
-    sim = ctx.tlc_gen(SPEC, "GenNamesys.tla", "GenNamesysSim.cfg", simulate=8 if q else 120, depth=1000, timeout=1800)
-    sim2 = ctx.tlc_gen(SPEC, "GenNamesys.tla", "GenNamesysSim2.cfg", simulate=4 if q else 60, depth=1000, timeout=1800)
+    # ---------------------------------------------------------------- M and G generators (independent TLC runs, concurrently)
+    def m_main():
+        return ctx.tlc_mc(SPEC, "Namesys.tla", "MCNamesysQuick.cfg" if q else "MCNamesys.cfg", timeout=2400,
+                          coverage=not q, workers=4 if q else 8)
+
+    def m_sim():
+        return ctx.tlc_mc(SPEC, "Namesys.tla", "MCNamesys2.cfg", timeout=2400, simulate=60 if q else 20000,
+                          depth=60 if q else 80, workers=2 if q else 4)
+
+    def m_dev():
+        # the defect is a property of the model with the deviation switched on (sanity: ReadYourPublish has teeth)
+        r = ctx.tlc_mc(SPEC, "Namesys.tla", "MCNamesysDev.cfg", timeout=1200, expect_violation="any", workers=2)
+        if r["violated"] not in ("ReadYourPublish", "ChainResult", "CacheCoherent"):
+            ctx.broken("as-built model (Dev_C29_PublishCacheKey) does not violate ReadYourPublish: %s" % r["violated"])
+        return r
+
+    def gen(cfg, **kw):
+        return lambda: ctx.tlc_gen(SPEC, "GenNamesys.tla", cfg, timeout=2400, **kw)
+    ctx.specdir(SPEC)
+    jobs = [m_main, m_sim, m_dev,
+            gen("GenNamesysD3.cfg" if q else "GenNamesysD4.cfg", workers=4),
+            gen("GenNamesysPubQ.cfg" if q else "GenNamesysPub.cfg", workers=4),
+            gen("GenNamesysChainQ.cfg" if q else "GenNamesysChain.cfg", workers=4),
+            gen("GenNamesysSim.cfg", simulate=8 if q else 120, depth=1000),
+            gen("GenNamesysSim2.cfg", simulate=4 if q else 60, depth=1000)]
+    import time as _t
+
+    def staggered(i_f):
+        _t.sleep(0.25 * i_f[0])          # distinct -metadir names (they carry a millisecond stamp)
+        return i_f[1]()
+    with cf.ThreadPoolExecutor(max_workers=len(jobs)) as ex:
+        outs = list(ex.map(staggered, enumerate(jobs)))
+    if ctx.brokens:
+        return
+    d4, pub, chn, sim, sim2 = outs[3:]
+    # seeded samples of the two large families (quick: of all length-2 sequences; thorough: of all length-3 sequences);
+    # the one-name core family is always replayed completely
+    k = 800 if q else 20000
+    pub = ctx.rng.sample(pub, min(len(pub), k))
+    chn = ctx.rng.sample(chn, min(len(chn), k))
     fams = [("core", d4), ("pub", pub), ("chain", chn), ("sim", sim), ("sim2", sim2)]
     if any(not f for _, f in fams):
         return
@@ -144,7 +164,7 @@ def run(ctx):
                 ctx.nontrivial(cur["key"])
     ctx.sample(behs[len(behs) // 2])
     # ---------------------------------------------------------------- T
-    jobs = 6 if q else 14
+    jobs = 8 if q else 14
     results, chunks, runs = validate_parallel(ctx, recs, jobs, "all")
     if any(r["timeout"] for r in results):
         ctx.broken("trace validation timed out")
@@ -169,12 +189,9 @@ def run(ctx):
         ctx.cov["evaluations"] += len(recs)
         ctx.cov["exhaustive"] = True
         # negative control: flip one observable in one run; the trace spec must reject exactly there
-        ch, nres = [], 0
-        for r in chunks[0]:                       # a prefix of chunk 0 (about 150 runs) is enough for the control
-            nres += r["ev"] == "Reset"
-            if nres > 150:
-                break
-            ch.append(dict(r))
+        ch = []                                   # about 80 runs that contain a candidate event are enough
+        for run_ in [x for x in runs if any(e["ev"] == "Resolve" and e["res"]["err"] == "" for e in x)][:80]:
+            ch.extend(dict(e) for e in run_)
         cand = [i for i, r in enumerate(ch) if r["ev"] == "Resolve" and r["res"]["err"] == "" and r["res"]["path"]["ns"] == "ipfs"]
         cand2 = [i for i, r in enumerate(ch) if r["ev"] == "Publish" and r["ok"]]
         for label, idxs, mut in (("resolve-result", cand, lambda r: r.__setitem__("res", dict(r["res"], path=dict(
